@@ -22,6 +22,7 @@ from . import sym
 from .source import FuncInfo, AnalysisError
 from .sym import NONE, canon, literals
 
+RAISED_FLAGS = {"stale", "_needupdate", "bankrupt"}  # boolean flags of the tree, read only for their truth value
 ALIASED_CONTAINER_FIELDS = {"_childrenv", "children", "_lazy_children", "_strat_children", "perm"}
 PURE_MODULES = {"np", "numpy", "pd", "pandas", "math", "re", "random", "abc", "sklearn", "ffn", "plt", "pyprind", "codecs", "os"}
 NODE_PARAM_NAMES = {"target", "strategy", "random_strategy", "parent", "root", "node", "child", "c", "sec", "s", "paper"}
@@ -310,6 +311,18 @@ class Evaluator(object):
             a = ast.copy_location(ast.Assign(targets=[tgt], value=s.value.body), s)
             b = ast.copy_location(ast.Assign(targets=[tgt], value=s.value.orelse), s)
             return self.st_If(ast.copy_location(ast.If(test=s.value.test, body=[a], orelse=[b]), s), st, frame)
+        if (isinstance(s.value, ast.BoolOp) and isinstance(s.value.op, ast.Or) and len(s.value.values) == 2 and len(s.targets) == 1
+                and isinstance(s.targets[0], ast.Attribute) and s.targets[0].attr in RAISED_FLAGS):
+            # `node.flag = cond or node.flag` (either order) only ever raises the flag: the statement `if cond: node.flag = True`
+            tgt = s.targets[0]
+            me = ast.dump(ast.Attribute(value=tgt.value, attr=tgt.attr, ctx=ast.Load()))
+            others = [x for x in s.value.values if ast.dump(x) != me]
+            if len(others) == 1 and _simple_pure_expr(tgt.value):
+                cond = others[0]
+                if isinstance(cond, ast.Call) and isinstance(cond.func, ast.Name) and cond.func.id == "bool" and len(cond.args) == 1 and not cond.keywords:
+                    cond = cond.args[0]
+                a = ast.copy_location(ast.Assign(targets=[tgt], value=ast.copy_location(ast.Constant(value=True), s)), s)
+                return self.st_If(ast.copy_location(ast.If(test=cond, body=[a], orelse=[]), s), st, frame)
         v = self.ev(s.value, st, frame)
         for t in s.targets:
             self.assign(t, v, st, frame, s)
@@ -993,7 +1006,8 @@ class Evaluator(object):
             if fi is not None:
                 return ("bound", obj, name)
             return ("fld", obj, name, st.version(name, self.group(obj, frame)))
-        return ("attr", obj, name)
+        # pandas' scalar accessors address the same cell as the general ones: X.at[r, c] is X.loc[r, c], X.iat[i, j] is X.iloc[i, j]
+        return ("attr", obj, {"at": "loc", "iat": "iloc"}.get(name, name))
 
     def read_field(self, obj, name, st, frame, node, emit=True):
         key = (canon(obj), name)
